@@ -104,13 +104,27 @@ def build(spec, mode, salt, sub_kind, missing_resolver=False):
         holder["source"] = Source(ctx.events, ctx.sched)
         return holder["source"]
 
+    def plain_awaitable(root, ctx, info, **args):
+        # a synchronous callable handing back an awaitable of the stream (e.g. a lambda around an async opener)
+        async def open_():
+            holder["source"] = Source(ctx.events, ctx.sched)
+            return holder["source"]
+        return open_()
+
+    def plain_loop(root, ctx, info, **args):
+        # a synchronous resolver that needs the running event loop while it sets its source up
+        asyncio.get_running_loop()
+        holder["source"] = Source(ctx.events, ctx.sched)
+        return holder["source"]
+
+    kinds = {"plain": plain, "coro": coro, "plain-awaitable": plain_awaitable, "plain-loop": plain_loop}
     if not missing_resolver:
         for fd in eff.fields(sname):
-            schema.register_subscription(sname, fd["name"], plain if sub_kind == "plain" else coro)
+            schema.register_subscription(sname, fd["name"], kinds[sub_kind])
     return schema, eff, holder
 
 
-def run_subscription(schema, text, variables, world, schedule, runtime_kind="asyncio", operation_name=None):
+def run_subscription(schema, text, variables, world, schedule, runtime_kind="asyncio", operation_name=None, in_thread=False):
     """-> dict(results=[GraphQLResult], exc=..., pulled=..)"""
     from py_gql.execution import subscribe
     from py_gql.execution.runtime import AsyncIORuntime, BlockingRuntime, ThreadPoolRuntime
@@ -123,7 +137,9 @@ def run_subscription(schema, text, variables, world, schedule, runtime_kind="asy
         loop = asyncio.get_running_loop()
         world.sched = {"loop": loop, "gates": [], "outcome": o}
         gates = world.sched["gates"]
-        rt = {"asyncio": lambda: AsyncIORuntime(execute_blocking_functions_in_thread=False),
+        pool = SR.ManualPool(o, ch)
+        loop.set_default_executor(pool)   # only used when plain functions are off-loaded to a thread (in_thread)
+        rt = {"asyncio": lambda: AsyncIORuntime(execute_blocking_functions_in_thread=in_thread),
               "blocking": BlockingRuntime, "threadpool": ThreadPoolRuntime}[runtime_kind]()
 
         async def consume():
@@ -142,13 +158,15 @@ def run_subscription(schema, text, variables, world, schedule, runtime_kind="asy
                     # settle (all gates open now belong to it), and keeps listening
                     out["results"].append(e)
                     for _ in range(400):
+                        while pool.pending:
+                            pool.run(0)
                         while gates:
                             g, _p = gates.pop(0)
                             if not g.done():
                                 g.set_result(None)
                         for _ in range(6):
                             await asyncio.sleep(0)
-                        if not gates:
+                        if not gates and not pool.pending:
                             break
                     continue
                 out["results"].append(r)
@@ -160,16 +178,20 @@ def run_subscription(schema, text, variables, world, schedule, runtime_kind="asy
                 await asyncio.sleep(0)
             if task.done():
                 break
-            if not gates:
+            if not gates and not pool.pending:
                 idle += 1
                 if idle > 25:
                     out["stuck"] = True
                     break
                 continue
             idle = 0
-            g, _p = gates.pop(ch.pick(len(gates)))
-            if not g.done():
-                g.set_result(None)
+            i = ch.pick(len(gates) + len(pool.pending))
+            if i < len(gates):
+                g, _p = gates.pop(i)
+                if not g.done():
+                    g.set_result(None)
+            else:
+                pool.run(i - len(gates))
         if out["stuck"]:
             task.cancel()
         try:
@@ -230,7 +252,7 @@ def check_case(case, ctx=None):
                 world.boom.add((ev["__ev__"], path))
                 boom_events[ev["__ev__"]] = path
     out = run_subscription(schema, text, {} if refusal in ("several-fields", "query-operation") else req["variables"], world,
-                           case["schedule"], runtime_kind)
+                           case["schedule"], runtime_kind, in_thread=bool(case.get("in_thread")))
     if refusal is not None:
         from py_gql.exc import ExecutionError
         want = ExecutionError if refusal == "several-fields" else RuntimeError
@@ -281,6 +303,7 @@ def check_case(case, ctx=None):
         nt = len(events) >= 2 and any(errs[i] and not all(errs[i + 1:]) for i in range(len(errs) - 1))
         ctx.event("events:%d" % len(events))
         ctx.event("subscription-resolver:" + case["sub_kind"])
+        ctx.event("plain-functions-off-loaded-to-threads" if case.get("in_thread") else "plain-functions-inline")
         if any(errs):
             ctx.event("stream-with-error-event")
         if boom_events:
@@ -301,7 +324,8 @@ def cases(draw):
             "world": {"salt": draw(st.integers(0, 10 ** 6)), "p_err": draw(st.sampled_from([0, 3, 5, 9])),
                       "p_null": draw(st.sampled_from([0, 5, 9])), "p_null_item": draw(st.sampled_from([0, 4]))},
             "boom": [(draw(st.integers(0, 7)), draw(st.integers(0, 9)))] if draw(st.integers(0, 3)) == 0 else [],
-            "n_events": draw(st.integers(0, 8)), "sub_kind": draw(st.sampled_from(["plain", "coro"])),
+            "n_events": draw(st.integers(0, 8)), "sub_kind": draw(st.sampled_from(["plain", "coro", "plain-awaitable", "plain-loop"])),
+            "in_thread": draw(st.booleans()),
             "schedule": draw(st.lists(st.integers(0, 5), max_size=30))}
 
 
